@@ -262,6 +262,8 @@ func runC13(c *Check) {
 	c.MinInstances("C13-R14", 6)
 	rulePooledMemoryNotReturned(c, "C13-R15", []*Prog{p, c.Mod(ModSingle), c.Mod(ModDA), c.Mod(ModTestapp), c.Mod(ModBased)})
 	ruleWorkerEndsOnlyStoppedOrReported(c, p, "C13-R16", []string{"DAIncluderLoop", "SyncLoop", "AggregationLoop"})
+	ruleNoStaleReadAcrossUnlock(c, "C13-R17", []*Prog{p, c.Mod(ModSingle), c.Mod(ModDA), c.Mod(ModTestapp), c.Mod(ModBased), c.Mod(ModCore)})
+	ruleSignalTakenOnlyAtTheWait(c, p, "C13-R18")
 	c.MinInstances("C13-R16", 3)
 }
 
